@@ -12,8 +12,9 @@ from . import configs, framework as fw, runner
 
 WORKER = str(Path(__file__).with_name('c08_worker.py'))
 UNKNOWN = 999          # content id of a result that matches no reference result
-CODES = {1: 'model', 2: 'restore', 3: 'refine', 4: 'stale', 5: 'rel', 9: 'harness'}
+CODES = {1: 'model', 2: 'restore', 3: 'refine', 4: 'stale', 9: 'harness'}
 STALE_KEY = 'stale-cache:path-keyed-hit-after-file-changed'
+STALE_REL_KEY = 'stale-cache:path-keyed-hit-same-relative-path-from-another-directory'
 
 BASE = [('Reservoir Model', '4'), ('Drawdown Parameter', '0.005'), ('Reservoir Depth', '3'), ('Gradient 1', '50'),
         ('End-Use Option', '1'), ('Power Plant Type', '1'), ('Number of Production Wells', '2'),
@@ -469,15 +470,18 @@ def check_sessions(ctx, name, sessions, results, refs, chunk=60):
 
 
 def matches_variant(ctx, name, session, result, refs):
-    """Which named alternative of the model reproduces the whole session: 'pinned' (restore only after success), or a
-    REPAIRED variant (proved sound in Coq): 'content-keyed cache', 'request path opened in the caller\'s directory',
-    or both; None = none of them."""
-    variants = [('pinned', 'session_matches', False), ('repaired: content-keyed cache', 'session_matches_repaired', True),
-                ('repaired: request path opened in the caller\'s directory', 'session_matches_callerdir', False),
-                ('repaired: content-keyed cache and request path opened in the caller\'s directory', 'session_matches_callerdir', True)]
-    terms = [session_term(fn, flag, session, result, refs)[0] for _n, fn, flag in variants]
+    """Which named alternative of the model reproduces the whole session: a REGRESSION to the pinned tree ('pinned
+    restore': restore only after success, before f0516a1; 'pinned path': request path opened in the program directory,
+    before fa4a753), the REPAIRED cache (content-keyed, proved sound in Coq), or None."""
+    variants = [('pinned restore', 'session_matches false'), ('pinned path', 'session_matches_pinned_path'),
+                ('repaired: content-keyed cache', 'session_matches_repaired true')]
+    terms = []
+    for _n, fn in variants:
+        fn, *flag = fn.split()
+        t = session_term(fn, flag == ['true'], session, result, refs)[0]
+        terms.append(t if flag else t.replace(f'{fn} false ', f'{fn} ', 1))
     bad = set(fw.kernel_bools(ctx, name, ['Model.Process'], terms, open_scope='nat_scope'))
-    return next((n for k, (n, _f, _g) in enumerate(variants) if k not in bad), None)
+    return next((n for k, (n, _f) in enumerate(variants) if k not in bad), None)
 
 
 # ------------------------------------------------------------------------------------------------------------
@@ -501,20 +505,26 @@ def impure_steps(session, result, refs):
     return bad
 
 
-REL_KEYS = {'client': 'relative-path:client:resolved-against-source-dir-not-callers-cwd',
-            'hip': 'relative-path:hip-client:resolved-against-program-dir-not-callers-cwd'}
+def stale_key(session, result, i):
+    """The cache key is the path as given: a hit on a RELATIVE path whose entry was made from another working
+    directory is the 'other directory' flavour of the stale cache; everything else is 'file changed'."""
+    op = session['ops'][i]
+    if op[0] == 'get' and op[2] in REL:
+        for j in range(i - 1, -1, -1):
+            o, b = session['ops'][j], result['obs'][j]
+            if o[0] == 'get' and o[1:3] == op[1:3] and b['out'][0] == 'ret' and not b['out'][2]:
+                return STALE_REL_KEY if b['cb'] != result['obs'][i]['cb'] else STALE_KEY
+    return STALE_KEY
 
 
 def violation_key(session, result, i, code):
     op, o = session['ops'][i], result['obs'][i]['out']
     what = {'ret': 'hit' if len(o) > 2 and o[2] else 'ok', 'raised': 'raised'}.get(o[0], o[0])
     who = {'cli': 'cli', 'hip': 'hip', 'mc': 'mc-embedded-' + ('client' if op[1] == 'g' else 'hip')}.get(op[0], 'client')
-    if op[0] == 'mc':
-        return STALE_KEY if code == 'stale' else f'{code}:{who}'
     if code == 'stale':
-        return STALE_KEY
-    if code == 'rel':
-        return REL_KEYS.get(who, f'relative-path:{who}')
+        return stale_key(session, result, i)
+    if op[0] == 'mc':
+        return f'{code}:{who}'
     if code == 'restore':
         return f'restore:{who}:after-{what}'
     if code == 'refine':
